@@ -46,6 +46,26 @@ IR_SHADOW = {
 }
 
 
+SOLVE_SHADOW = {
+    "name": "chalk-solve",
+    "crate": "chalk-solve",
+    "cargo_toml": "harness/shadow/chalk-solve.Cargo.toml",
+    "appends": {
+        "src/infer/unify.rs": [("harness/solveshadow/c29_unify.rs", "verif_c29_unify")],
+    },
+}
+
+
+def solveshadow_unit(*files, modules=None):
+    return {
+        "name": "solveshadow",
+        "kind": "shadow",
+        "shadow": SOLVE_SHADOW,
+        "files": list(files),
+        "modules": modules or {},
+    }
+
+
 def irshadow_unit(*files, modules=None):
     return {
         "name": "irshadow",
@@ -94,23 +114,39 @@ PROPS = {
         "design_ref": "DESIGN.md §4.7",
     },
     "C29": {
-        "units": [ir_unit("harness/ir/src/c29.rs")],
-        "claim": "The variance machinery every relater goes through: Variance::xform is the sign product and invert "
+        "units": [ir_unit("harness/ir/src/c29.rs"),
+                  solveshadow_unit("harness/solveshadow/c29_unify.rs",
+                                   modules={"harness/solveshadow/c29_unify.rs": "infer::unify::verif_c29_unify"})],
+        "claim": "(1) The variance machinery every relater goes through: Variance::xform is the sign product and invert "
                  "the negation (all 27 triples); Zipper::zip_substs relates position i at ambient.xform(declared[i]) "
                  "(Invariant when nothing is declared), each pair once and in order, for all ambient / declared "
-                 "variances; Zip for FnSubst relates parameters contravariantly and the return type covariantly.",
-        "bounds": "argument lists [ty, lifetime, ty]; three declared variances; fn(T0, T1) -> T2; all variance values symbolic; unwind 8",
-        "outside": "Unifier::relate_ty_ty / push_lifetime_outlives_goals composing these over real types and emitting "
-                   "the outlives goals (InferenceTable::relate does not finish under CBMC, DESIGN.md P18); "
-                   "SubtypeGoal handling in the engines",
-        "assumptions": [],
-        "stubs": [],
-        "trusted_base": VINTERNER_TB + ["harness-side recording Zipper"],
-        "harness_note_default": "variance observed by a recording zipper equals the variance table's value",
-        "level_text": "Bounded model checking (Kani/CBMC) of the real variance algebra and of the zip_substs / FnSubst "
-                      "zipping code with all variances symbolic; partial with respect to the property (the unifier "
-                      "itself is out of reach).",
-        "level_note": "Trusted: Kani/CBMC; VInterner; the sign-product reading of the variance table.",
+                 "variances; Zip for FnSubst relates parameters contravariantly and the return type covariantly. "
+                 "(2) The unifier's own steps (chalk-solve/src/infer/unify.rs, private, in a shadow copy of chalk-solve): "
+                 "Unifier::relate_lifetime_lifetime + unify_lifetime_var + push_lifetime_outlives_goals for all 6 x 6 kinds of "
+                 "lifetime pairs (unbound unknown, unknown bound to a placeholder, placeholder, 'static, erased, error) return "
+                 "exactly the outlives requirements the variance dictates, bind an unknown instead only at invariant variance "
+                 "and only to a value its universe can name, and demand nothing of equal or error lifetimes; "
+                 "Unifier::relate_ty_ty on references (&/&mut, all mutability pairs) relates exactly when mutability and pointee "
+                 "agree and returns 'a: 'b for &'a T <: &'b T (converse when contravariant, both when invariant); on Adt / FnDef "
+                 "with one declared variance from the unification database (symbolic) it returns the requirements of the sign "
+                 "product of ambient and declared variance.",
+        "bounds": "argument lists [ty, lifetime, ty]; three declared variances; fn(T0, T1) -> T2; all variance values symbolic; "
+                  "unifier steps: one lifetime pair per query, universes 0..7 symbolic, placeholder indices symbolic, pointee "
+                  "Foreign(id) with symbolic ids, one lifetime argument per Adt / FnDef, fresh inference table (plus one bound "
+                  "variable in the bound-variable classes); unwind 8",
+        "outside": "relate_ty_ty on fn pointers (binders: relate_binders instantiates both sides), tuples, arrays, dyn and "
+                   "aliases; generalisation (relate_var_ty / generalize_*) of types containing lifetimes; tables with a longer "
+                   "history than one bound variable; SubtypeGoal handling in the engines. The returned goals are identified "
+                   "with the goals interned during the call by their number and read from the interner's observation log "
+                   "(DESIGN.md B17), not from the Vec.",
+        "assumptions": ["lifetimes handed to the unifier are not bound variables (documented: unification panics on them)"],
+        "stubs": ["UnificationDatabase: a stub returning one symbolic declared variance (declared-variance classes) or unreachable"],
+        "trusted_base": VINTERNER_TB + ["harness-side recording Zipper", "VInterner observation log (intern_goal records Holds(LifetimeOutlives) goals by value)"],
+        "harness_note_default": "variance observed by a recording zipper / outlives goals returned by the unifier equal what the variance dictates",
+        "level_text": "Bounded model checking (Kani/CBMC) of the real variance algebra, of the zip_substs / FnSubst "
+                      "zipping code and of the unifier's lifetime / reference / declared-variance steps with all variances symbolic; "
+                      "partial with respect to the property (fn pointers, deeper types and generalisation are outside).",
+        "level_note": "Trusted: Kani/CBMC; VInterner and its observation log; the sign-product reading of the variance table.",
         "design_ref": "DESIGN.md §4.7",
     },
     "C13": {
